@@ -138,10 +138,11 @@ def body_factory(rep, mod):
     return body
 
 
-def exhaustive(rep, mod, dmax, depth):
-    """All gap words over {0..3d} up to `depth`, DFS with the real policer copied at each node."""
+def exhaustive(rep, mod, plan):
+    """All gap words over {0..3d} up to the given depth for each interval d (plan: list of (d, depth)); DFS with the
+    real policer copied at each node."""
     total = 0
-    for d in range(1, dmax + 1):
+    for d, depth in plan:
         rps = 1e9 / d
         interval = check_interval(mod, rps)
         if interval != d:
@@ -266,11 +267,11 @@ def run(rep, tier):
     if core.run_hypothesis(rep, long_strategy, body_factory(rep, mod), n // 12, describe=desc):
         return
     try:
-        dmax, depth = (3, 6) if tier == "quick" else (6, 6)
-        total = exhaustive(rep, mod, dmax, depth)
+        plan = [(1, 6), (2, 6), (3, 6)] if tier == "quick" else [(1, 8), (2, 7), (3, 6), (4, 6), (5, 5), (6, 5), (7, 4), (8, 4)]
+        total = exhaustive(rep, mod, plan)
         rep.evaluations += total
         rep.extra["exhaustive_nodes"] = total
-        rep.extra["exhaustive_space"] = "all gap words over {0..3d} of length <= %d for d=1..%d ns" % (depth, dmax)
+        rep.extra["exhaustive_space"] = "all gap words over {0..3d} of length <= depth for (interval d ns, depth) in %r" % (plan,)
         rep.exhaustive = False  # the random part is not exhaustive; the DFS part is (see exhaustive_space)
     except core.Failure as f:
         rep.violation(f.signature, {"part": "exhaustive"}, f.message)
